@@ -13,7 +13,7 @@ T == Batch[tid].events
 E == T[l]
 TInit == /\ tid \in 1..Len(Batch) /\ l = 1 /\ bad = {}
          /\ active = TRUE /\ authed = FALSE /\ authHandler = FALSE /\ expected = {} /\ strictPending = FALSE
-         /\ chans = {} /\ seen = {} /\ seqIn = 0 /\ cb = {} /\ last = Obs(0, 0, "none", NoReply, 0)
+         /\ chans = {} /\ seen = {} /\ inKex = FALSE /\ seqIn = 0 /\ cb = {} /\ last = Obs(0, 0, "none", NoReply, 0)
 \* bind the logged pre-state, then take the spec's Recv on it
 Bound(e) == /\ authed = e.authed /\ authHandler = e.authHandler
             /\ chans = (IF e.chan = "live" THEN {1} ELSE {}) /\ seen = (IF e.chan \in {"live", "seen"} THEN {1} ELSE {})
